@@ -3,15 +3,22 @@ import Model.Rules
 import Bridge.Basic
 /-!
   Bridge for the name rules of `pydsdl/_serializable/_name.py` (`Gen/Names.lean`, rewritten from the working tree of /repo on
-  every run: the character-set constants, the table `_DISALLOWED_NAME_PATTERNS` with every `re.compile` pattern parsed from
-  its source text, and `check_name` itself): for EVERY string the generated `check_name` returns normally exactly when the
-  model's `Rules.checkName` says `true` and raises `InvalidNameError` otherwise - never another exception, and never the
-  translation's own "non-ASCII" failure (the primitives `Py.strLower` / `Py.Pat.match` are only reached with ASCII subjects).
+  every run: `check_name` as a term of `Py.M` with the module constants folded into their use sites, every `re.compile` pattern
+  parsed from its source text): for EVERY string the generated `check_name` returns normally exactly when the model's
+  `Rules.checkName` says `true` and raises `InvalidNameError` otherwise - never another exception, and never the translation's
+  own "non-ASCII" failure (the primitives `Py.strLower` / `Py.Pat.match` are only reached with ASCII subjects).
 
   Every generated pattern is proved equivalent, as a function of the subject, to the hand-written matcher of the model it
   corresponds to (`void\d*`, `u?int\d*`, `u?q\d+_\d+`, `float\d*`, `com\d`, `lpt\d`, `_.*_`, each with the final `$` of
-  `Pattern.match`); the lemmas are stated about the literal regex terms, so a changed pattern leaves `check_name_eq` unprovable.
-  The final comparison of the two disjunctions is modulo associativity / commutativity: the order of the table is immaterial.
+  `Pattern.match`); the lemmas are stated about the literal regex terms, so a changed pattern leaves `check_name_list` unprovable.
+
+  The proof of `check_name_list` does not follow the shape of today's function.  It computes the weakest precondition `wp` of the
+  generated term by rewriting (`names_wp`: one rule per primitive - bind, `if`, `raise`, `s[0]`, `lower()`, `match`, loops and
+  comprehensions over a table unrolled entry by entry, a loop over the characters of the name through the first character on which
+  its body raises) under the facts of the case at hand (empty / bad first character / some bad character / all characters valid),
+  folds consecutive checks that raise the same exception into one disjunction and compares that disjunction with the model's
+  modulo associativity and commutativity.  So the order of the table, the split of the table into several constants, a loop
+  turned into a comprehension / `next(...)` / `any(...)`, renamed or extracted locals and helpers, reworded messages change nothing.
 -/
 set_option linter.unusedSimpArgs false
 set_option linter.unnecessarySeqFocus false
@@ -40,18 +47,24 @@ theorem mem_iff_toNat_mem (c : Char) (l : List Char) : c ∈ l ↔ c.toNat ∈ l
       · exact .inl (Char.toNat_inj.mp h)
       · exact .inr h
 
-/-- `string.ascii_letters + "_"` is the model's `validFirst` -/
-theorem charIn_first (c : Char) : Py.charIn c Gen.Names.VALID_FIRST_CHARACTERS_OF_NAME = validFirst c := by
+/-- `string.ascii_letters + "_"`, as the translator folds it into `x in …` (sorted, distinct), is the model's `validFirst` -/
+theorem charIn_first (c : Char) :
+    Py.charIn c ['A', 'B', 'C', 'D', 'E', 'F', 'G', 'H', 'I', 'J', 'K', 'L', 'M', 'N', 'O', 'P', 'Q', 'R', 'S', 'T', 'U', 'V', 'W', 'X',
+      'Y', 'Z', '_', 'a', 'b', 'c', 'd', 'e', 'f', 'g', 'h', 'i', 'j', 'k', 'l', 'm', 'n', 'o', 'p', 'q', 'r', 's', 't', 'u', 'v', 'w',
+      'x', 'y', 'z'] = validFirst c := by
   rw [Bool.eq_iff_iff]
-  simp only [Py.charIn, List.contains_iff_mem, mem_iff_toNat_mem, Gen.Names.VALID_FIRST_CHARACTERS_OF_NAME, validFirst, isUpper,
+  simp only [Py.charIn, List.contains_iff_mem, mem_iff_toNat_mem, validFirst, isUpper,
     isLower, Bool.or_eq_true, Bool.and_eq_true, decide_eq_true_eq, beq_iff_eq, char_le_iff, ← Char.toNat_inj]
   simp only [List.map_cons, List.map_nil, List.mem_cons, List.not_mem_nil, or_false, Char.reduceToNat]
   omega
 
-/-- `string.ascii_letters + "_" + string.digits` is the model's `validCont` -/
-theorem charIn_cont (c : Char) : Py.charIn c Gen.Names.VALID_CONTINUATION_CHARACTERS_OF_NAME = validCont c := by
+/-- `string.ascii_letters + "_" + string.digits` (sorted, distinct) is the model's `validCont` -/
+theorem charIn_cont (c : Char) :
+    Py.charIn c ['0', '1', '2', '3', '4', '5', '6', '7', '8', '9', 'A', 'B', 'C', 'D', 'E', 'F', 'G', 'H', 'I', 'J', 'K', 'L', 'M', 'N',
+      'O', 'P', 'Q', 'R', 'S', 'T', 'U', 'V', 'W', 'X', 'Y', 'Z', '_', 'a', 'b', 'c', 'd', 'e', 'f', 'g', 'h', 'i', 'j', 'k', 'l', 'm',
+      'n', 'o', 'p', 'q', 'r', 's', 't', 'u', 'v', 'w', 'x', 'y', 'z'] = validCont c := by
   rw [Bool.eq_iff_iff]
-  simp only [Py.charIn, List.contains_iff_mem, mem_iff_toNat_mem, Gen.Names.VALID_CONTINUATION_CHARACTERS_OF_NAME, validCont,
+  simp only [Py.charIn, List.contains_iff_mem, mem_iff_toNat_mem, validCont,
     validFirst, isUpper, isLower, Rules.isDigit, Bool.or_eq_true, Bool.and_eq_true, decide_eq_true_eq, beq_iff_eq, char_le_iff,
     ← Char.toNat_inj]
   simp only [List.map_cons, List.map_nil, List.mem_cons, List.not_mem_nil, or_false, Char.reduceToNat]
@@ -247,27 +260,142 @@ theorem pat_underscores (s : List Char) (hs : ∀ c ∈ s, c ≠ '\n') :
       · rename_i heq; cases heq; exact absurd rfl hc
       · rfl
 
+
 /-! ### `check_name` -/
 
-/-- what `check_name` raises -/
 def E : Py.Err := .other "InvalidNameError"
 
-@[simp] theorem throw_eq {α : Type} (e : Py.Err) : (throw e : Py.M α) = Except.error e := rfl
-@[simp] theorem error_bind {α β : Type} (e : Py.Err) (f : α → Py.M β) : (Except.error e >>= f) = Except.error e := rfl
+/-! ### weakest preconditions -/
+def wp {α : Type} (x : Py.M α) (Q : α → Prop) (R : Py.Err → Prop) : Prop :=
+  match x with
+  | .ok a => Q a
+  | .error e => R e
 
-/-- a checking loop: the first element on which the body raises decides -/
-theorem forEach_check {α : Type} (l : List α) (p : α → Bool) (e : Py.Err) (body : Unit → α → Py.M Unit)
-    (h : ∀ x, body () x = if p x then .error e else .ok ()) :
-    Py.forEach l () body = if l.any p then .error e else .ok () := by
+theorem wp_ok {α : Type} (a : α) (Q : α → Prop) (R : Py.Err → Prop) : wp (Except.ok a) Q R = Q a := rfl
+theorem wp_error {α : Type} (e : Py.Err) (Q : α → Prop) (R : Py.Err → Prop) : wp (Except.error e : Py.M α) Q R = R e := rfl
+theorem wp_pure {α : Type} (a : α) (Q : α → Prop) (R : Py.Err → Prop) : wp (pure a : Py.M α) Q R = Q a := rfl
+theorem wp_throw {α : Type} (e : Py.Err) (Q : α → Prop) (R : Py.Err → Prop) : wp (throw e : Py.M α) Q R = R e := rfl
+theorem wp_bind {α β : Type} (x : Py.M α) (f : α → Py.M β) (Q : β → Prop) (R : Py.Err → Prop) :
+    wp (x >>= f) Q R = wp x (fun a => wp (f a) Q R) R := by
+  cases x <;> rfl
+theorem wp_ite {α : Type} (c : Prop) [Decidable c] (x y : Py.M α) (Q : α → Prop) (R : Py.Err → Prop) :
+    wp (if c then x else y) Q R = if c then wp x Q R else wp y Q R := by
+  split <;> rfl
+
+theorem eq_of_wp (x : Py.M Unit) (v : Bool) (h : wp x (fun _ => v = true) (fun e => e = E ∧ v = false)) :
+    x = if v then .ok () else .error E := by
+  cases x with
+  | ok a => simp only [wp] at h; simp [h]
+  | error e => simp only [wp] at h; simp [h.1, h.2]
+
+theorem wp_strIndex_cons_zero (c : Char) (s : List Char) (Q : Char → Prop) (R : Py.Err → Prop) :
+    wp (Py.strIndex (c :: s) 0) Q R = Q c := rfl
+theorem wp_strIndex_nil (i : Nat) (Q : Char → Prop) (R : Py.Err → Prop) :
+    wp (Py.strIndex [] i) Q R = R (.other "IndexError") := rfl
+theorem wp_strLower (s : List Char) (Q : Py.Str → Prop) (R : Py.Err → Prop) :
+    wp (Py.strLower s) Q R = if s.all Py.isAscii = true then Q (lower s) else R (.other "non-ASCII") := by
+  unfold Py.strLower lower
+  rw [lowerChar_eq]
+  split <;> rfl
+theorem wp_match_re (r : Rx) (d : Bool) (s : List Char) (Q : Bool → Prop) (R : Py.Err → Prop) :
+    wp (Py.Pat.match (.re r d) s) Q R = if s.all Py.isAscii = true then Q (r.pyMatch d s) else R (.other "non-ASCII") := by
+  show wp (if s.all Py.isAscii = true then pure (r.pyMatch d s) else throw (.other "non-ASCII")) Q R = _
+  rw [wp_ite]; rfl
+theorem wp_match_str (w : Py.Str) (s : List Char) (Q : Bool → Prop) (R : Py.Err → Prop) :
+    wp (Py.Pat.match (.str w) s) Q R = R (.other "AttributeError") := rfl
+theorem wp_fullmatch_re (r : Rx) (d : Bool) (s : List Char) (Q : Bool → Prop) (R : Py.Err → Prop) :
+    wp (Py.Pat.fullmatch (.re r d) s) Q R = if s.all Py.isAscii = true then Q (r.fullmatch s) else R (.other "non-ASCII") := by
+  show wp (if s.all Py.isAscii = true then pure (r.fullmatch s) else throw (.other "non-ASCII")) Q R = _
+  rw [wp_ite]; rfl
+theorem wp_fullmatch_str (w : Py.Str) (s : List Char) (Q : Bool → Prop) (R : Py.Err → Prop) :
+    wp (Py.Pat.fullmatch (.str w) s) Q R = R (.other "AttributeError") := rfl
+
+/-! loops over a table: unrolled -/
+theorem forEach_pat_nil (body : Unit → Py.Pat → Py.M Unit) : Py.forEach ([] : List Py.Pat) () body = pure () := rfl
+theorem forEach_pat_cons (a : Py.Pat) (l : List Py.Pat) (body : Unit → Py.Pat → Py.M Unit) :
+    Py.forEach (a :: l) () body = body () a >>= fun _ => Py.forEach l () body := by
+  unfold Py.forEach; rw [List.foldlM_cons]
+theorem filterM_pat_nil (f : Py.Pat → Py.M Bool) : Py.filterM ([] : List Py.Pat) f = pure [] := rfl
+theorem filterM_pat_cons (a : Py.Pat) (l : List Py.Pat) (f : Py.Pat → Py.M Bool) :
+    Py.filterM (a :: l) f = f a >>= fun b => Py.filterM l f >>= fun r => pure (if b then a :: r else r) := rfl
+theorem anyM_pat_nil (f : Py.Pat → Py.M Bool) : Py.anyM ([] : List Py.Pat) f = pure false := rfl
+theorem anyM_pat_cons (a : Py.Pat) (l : List Py.Pat) (f : Py.Pat → Py.M Bool) :
+    Py.anyM (a :: l) f = f a >>= fun b => if b then pure true else Py.anyM l f := rfl
+theorem allM_pat_nil (f : Py.Pat → Py.M Bool) : Py.allM ([] : List Py.Pat) f = pure true := rfl
+theorem allM_pat_cons (a : Py.Pat) (l : List Py.Pat) (f : Py.Pat → Py.M Bool) :
+    Py.allM (a :: l) f = f a >>= fun b => if b then Py.allM l f else pure false := rfl
+
+/-! the same over the characters of the name, when the condition cannot raise -/
+theorem filterM_pure {α : Type} (l : List α) (p : α → Bool) : Py.filterM l (fun x => (pure (p x))) = pure (l.filter p) := by
+  induction l with
+  | nil => rfl
+  | cons a l ih => simp only [Py.filterM, ih, List.filter_cons]; cases p a <;> rfl
+theorem anyM_pure {α : Type} (l : List α) (p : α → Bool) : Py.anyM l (fun x => (pure (p x))) = pure (l.any p) := by
+  induction l with
+  | nil => rfl
+  | cons a l ih => simp only [Py.anyM, ih, List.any_cons]; cases p a <;> rfl
+theorem allM_pure {α : Type} (l : List α) (p : α → Bool) : Py.allM l (fun x => (pure (p x))) = pure (l.all p) := by
+  induction l with
+  | nil => rfl
+  | cons a l ih => simp only [Py.allM, ih, List.all_cons]; cases p a <;> rfl
+
+theorem filter_pat_nil (p : Py.Pat → Bool) : ([] : List Py.Pat).filter p = [] := rfl
+theorem filter_pat_cons (a : Py.Pat) (l : List Py.Pat) (p : Py.Pat → Bool) :
+    (a :: l).filter p = if p a = true then a :: l.filter p else l.filter p := List.filter_cons
+
+theorem isEmpty_ite_cons {α : Type} (b : Bool) (a : α) (r : List α) : (if b = true then a :: r else r).isEmpty = (!b && r.isEmpty) := by
+  cases b <;> simp
+
+/-! loops over the characters of the name: the first character on which the body raises decides -/
+def errOf (x : Py.M Unit) : Option Py.Err :=
+  match x with
+  | .ok _ => none
+  | .error e => some e
+def optCase (o : Option Py.Err) (Q : Prop) (R : Py.Err → Prop) : Prop :=
+  match o with
+  | none => Q
+  | some e => R e
+
+theorem errOf_pure : errOf (pure ()) = none := rfl
+theorem errOf_ok : errOf (.ok ()) = none := rfl
+theorem errOf_throw (e : Py.Err) : errOf (throw e) = some e := rfl
+theorem errOf_error (e : Py.Err) : errOf (.error e) = some e := rfl
+theorem errOf_ite (c : Prop) [Decidable c] (x y : Py.M Unit) : errOf (if c then x else y) = if c then errOf x else errOf y := by
+  split <;> rfl
+theorem errOf_bind (x : Py.M Unit) (f : Unit → Py.M Unit) : errOf (x >>= f) = (errOf x).orElse fun _ => errOf (f ()) := by
+  cases x <;> rfl
+theorem optCase_none (Q : Prop) (R : Py.Err → Prop) : optCase none Q R = Q := rfl
+theorem optCase_some (e : Py.Err) (Q : Prop) (R : Py.Err → Prop) : optCase (some e) Q R = R e := rfl
+theorem optCase_ite (c : Prop) [Decidable c] (a b : Option Py.Err) (Q : Prop) (R : Py.Err → Prop) :
+    optCase (if c then a else b) Q R = if c then optCase a Q R else optCase b Q R := by
+  split <;> rfl
+
+theorem wp_forEach_chars (l : List Char) (body : Unit → Char → Py.M Unit) (Q : Unit → Prop) (R : Py.Err → Prop) :
+    wp (Py.forEach l () body) Q R = optCase (l.findSome? fun x => errOf (body () x)) (Q ()) R := by
   unfold Py.forEach
   induction l with
   | nil => rfl
   | cons a l ih =>
-    rw [List.foldlM_cons, h a]
-    by_cases hp : p a = true
-    · simp [hp]
-    · simp only [hp, Bool.false_eq_true, if_false, ok_bind, List.any_cons, Bool.false_or]
-      simpa using ih
+    rw [List.foldlM_cons, wp_bind, List.findSome?_cons]
+    cases h : body () a with
+    | ok u => simp only [wp, errOf]; exact ih
+    | error e => simp only [wp, errOf, optCase]
+
+theorem findSome?_ite {α β : Type} (l : List α) (p : α → Bool) (e : β) :
+    (l.findSome? fun x => if p x = true then some e else none) = if l.any p = true then some e else none := by
+  induction l with
+  | nil => rfl
+  | cons a l ih =>
+    rw [List.findSome?_cons, List.any_cons]
+    cases h : p a <;> simp [ih]
+
+theorem findSome?_ite' {α β : Type} (l : List α) (p : α → Bool) (e : β) :
+    (l.findSome? fun x => if p x = true then none else some e) = if l.all p = true then none else some e := by
+  induction l with
+  | nil => rfl
+  | cons a l ih =>
+    rw [List.findSome?_cons, List.all_cons]
+    cases h : p a <;> simp [ih]
 
 theorem isAscii_of_validCont {c : Char} (h : validCont c = true) : Py.isAscii c = true := by
   have := validCont_toNat h
@@ -280,7 +408,6 @@ theorem validCont_lowerChar {c : Char} (h : validCont c = true) : validCont (Rul
   unfold Rules.lowerChar
   split <;> first | decide | exact h
 
-/-- the verdict of the model on the characters of a name (`Rules.checkName` is this function of `name.toList`) -/
 def verdict (s : List Char) : Bool :=
   match s with
   | [] => false
@@ -290,78 +417,107 @@ def verdict (s : List Char) : Bool :=
 
 theorem checkName_eq_verdict (name : String) : checkName name = verdict name.toList := rfl
 
-/-- what one entry of the generated table does with the (lower-cased) name -/
+/-! facts about table entries, as proper rewrite rules (not `rfl`-lemmas: `simp` must rebuild the `Decidable` instances of the
+    conditions it rewrites) -/
+theorem isStr_str (w : Py.Str) : (Pat.str w).isStr = true := id rfl
+theorem isStr_re (r : Rx) (d : Bool) : (Pat.re r d).isStr = false := id rfl
+theorem eqStr_str (w s : Py.Str) : (Pat.str w).eqStr s = (w == s) := id rfl
+theorem eqStr_re (r : Rx) (d : Bool) (s : Py.Str) : (Pat.re r d).eqStr s = false := id rfl
+theorem strInTable_nil (s : Py.Str) : Py.strInTable s [] = false := id rfl
+theorem strInTable_cons (s : Py.Str) (p : Py.Pat) (t : List Py.Pat) : Py.strInTable s (p :: t) = (p.eqStr s || Py.strInTable s t) := id rfl
+
+/-! the end of the computation: a decision tree over boolean conditions whose leaves say what the verdict must be -/
+theorem ite_push (c v a b : Bool) : (if c = true then v = a else v = b) = (v = bif c then a else b) := by
+  cases c <;> rfl
+theorem cond_true_left' (c b : Bool) : (bif c then true else b) = (c || b) := by cases c <;> rfl
+theorem cond_false_left' (c b : Bool) : (bif c then false else b) = (!c && b) := by cases c <;> rfl
+theorem cond_true_right' (c a : Bool) : (bif c then a else true) = (!c || a) := by cases c <;> cases a <;> rfl
+theorem cond_false_right' (c a : Bool) : (bif c then a else false) = (c && a) := by cases c <;> cases a <;> rfl
+
+/-- evaluate the weakest precondition of the generated `check_name` under the given facts about the name -/
+macro "names_wp" "[" hs:Lean.Parser.Tactic.simpLemma,* "]" : tactic =>
+  `(tactic| simp only [Gen.Names.check_name, wp_bind, wp_ite, wp_pure, wp_throw, wp_ok, wp_error, wp_strIndex_cons_zero,
+      wp_strIndex_nil, wp_strLower, wp_match_re, wp_match_str, wp_fullmatch_re, wp_fullmatch_str, forEach_pat_nil,
+      forEach_pat_cons, filterM_pat_nil, filterM_pat_cons, anyM_pat_nil, anyM_pat_cons, allM_pat_nil, allM_pat_cons,
+      wp_forEach_chars, errOf_pure, errOf_ok, errOf_throw, errOf_error, errOf_ite, errOf_bind, findSome?_ite, findSome?_ite',
+      optCase_none, optCase_some, optCase_ite, charIn_first, charIn_cont, List.isEmpty_cons, List.isEmpty_nil,
+      Bool.false_eq_true, Bool.not_true, Bool.not_false, Bool.not_not, if_false, if_true, isStr_str, isStr_re, eqStr_str, eqStr_re,
+      strInTable_nil, strInTable_cons, Option.isSome_none, Option.isNone_none, Option.isSome_some, Option.isNone_some,
+      isEmpty_ite_cons, filterM_pure, anyM_pure, allM_pure, filter_pat_cons, filter_pat_nil, List.head?_cons, List.head?_nil, $hs,*])
+
+theorem check_name_list (s : List Char) :
+    Gen.Names.check_name s = if verdict s then .ok () else .error E := by
+  apply eq_of_wp
+  cases s with
+  | nil =>
+    names_wp []
+    simp [E, verdict]
+  | cons c rest =>
+    by_cases hf : validFirst c = true
+    · by_cases hall : (c :: rest).all validCont = true
+      · have h1 : (c :: rest).any (fun ch => !validCont ch) = false := by
+          rw [List.any_eq_false]; intro x hx; simpa using List.all_eq_true.mp hall x hx
+        have h2 : (c :: rest).filter (fun ch => !validCont ch) = [] := by
+          rw [List.filter_eq_nil_iff]; intro x hx; simpa using List.all_eq_true.mp hall x hx
+        have h3 : (c :: rest).find? (fun ch => !validCont ch) = none := by
+          rw [List.find?_eq_none]; intro x hx; simpa using List.all_eq_true.mp hall x hx
+        have hasc : (c :: rest).all Py.isAscii = true :=
+          List.all_eq_true.mpr fun x hx => isAscii_of_validCont (List.all_eq_true.mp hall x hx)
+        have hclean : ∀ x ∈ lower (c :: rest), validCont x = true := by
+          intro x hx
+          obtain ⟨y, hy, rfl⟩ := List.mem_map.mp hx
+          exact validCont_lowerChar (List.all_eq_true.mp hall y hy)
+        have hasc' : (lower (c :: rest)).all Py.isAscii = true :=
+          List.all_eq_true.mpr fun x hx => isAscii_of_validCont (hclean x hx)
+        have hnl : ∀ x ∈ lower (c :: rest), x ≠ '\n' := fun x hx => ne_newline_of_validCont (hclean x hx)
+        have hlast : (lower (c :: rest)).getLast? ≠ some '\n' := fun h => hnl _ (List.mem_of_getLast? h) rfl
+        names_wp [hf, h1, h2, h3, hall, hasc, hasc']
+        -- a tree of `if`s whose leaves are `verdict = true` (falls off the end) / `InvalidNameError ∧ verdict = false`
+        simp only [E, true_and, ite_push]
+        -- both sides in negation normal form over the same atoms: words `w == n` and the model's matchers
+        simp only [verdict, hf, hall, reservedWords, matchesPattern, List.any_cons, List.any_nil, pyMatch_dollar_eq _ _ hlast,
+          pat_void, pat_int, pat_q, pat_float, pat_com, pat_lpt, pat_underscores _ hnl, String.reduceToList,
+          cond_true_left', cond_false_left', cond_true_right', cond_false_right', Bool.not_or, Bool.not_and, Bool.not_not,
+          Bool.not_true, Bool.not_false, Bool.or_false, Bool.false_or, Bool.and_true, Bool.true_and, Bool.or_true, Bool.true_or,
+          Bool.and_false, Bool.false_and]
+        ac_rfl
+      · have hall' : (c :: rest).all validCont = false := by simpa using hall
+        have h1 : (c :: rest).any (fun ch => !validCont ch) = true := by
+          rw [List.any_eq_true]
+          simp only [List.all_eq_true, not_forall] at hall
+          obtain ⟨x, hx, hv⟩ := hall
+          exact ⟨x, hx, by simpa using hv⟩
+        have h2 : ((c :: rest).filter (fun ch => !validCont ch)).isEmpty = false := by
+          rw [List.isEmpty_eq_false_iff, Ne, List.filter_eq_nil_iff]
+          intro h
+          obtain ⟨x, hx, hv⟩ := List.any_eq_true.mp h1
+          exact h x hx hv
+        have h3 : ((c :: rest).find? (fun ch => !validCont ch)).isSome = true := by
+          rw [List.find?_isSome]; exact List.any_eq_true.mp h1
+        have h3' : ((c :: rest).find? (fun ch => !validCont ch)).isNone = false := by
+          rw [← Option.not_isSome, h3]; rfl
+        names_wp [hf, h1, h2, h3, h3', hall']
+        simp [E, verdict, hall']
+    · have hf' : validFirst c = false := by simpa using hf
+      names_wp [hf']
+      simp [E, verdict, hf']
+
+/-- what one entry of a table does with the (lower-cased) name -/
 def hits (n : List Char) : Py.Pat → Bool
   | .str w => w == n
   | .re r dollar => r.pyMatch dollar n
 
-/-- The generated table - plain words and parsed patterns, in the order of the source - hits a name of valid characters
-    exactly when the model's word list or one of its hand-written matchers does. -/
+/-- Every string and pattern `check_name` consults (`Gen.Names.reserved`: the entries of the module-level tables it uses, parsed
+    from the source) - together they hit a name of valid characters exactly when the model's word list or one of its hand-written
+    matchers does. -/
 theorem table_any (n : List Char) (hclean : ∀ x ∈ n, validCont x = true) :
-    Gen.Names.DISALLOWED_NAME_PATTERNS.any (hits n) = ((reservedWords.any fun w => w.toList == n) || matchesPattern n) := by
+    Gen.Names.reserved.any (hits n) = ((reservedWords.any fun w => w.toList == n) || matchesPattern n) := by
   have hnl : ∀ x ∈ n, x ≠ '\n' := fun x hx => ne_newline_of_validCont (hclean x hx)
-  have hlast : n.getLast? ≠ some '\n' := by
-    intro h
-    exact hnl _ (List.mem_of_getLast? h) rfl
-  simp only [Gen.Names.DISALLOWED_NAME_PATTERNS, reservedWords, matchesPattern, List.any_cons, List.any_nil, hits,
+  have hlast : n.getLast? ≠ some '\n' := fun h => hnl _ (List.mem_of_getLast? h) rfl
+  simp only [Gen.Names.reserved, reservedWords, matchesPattern, List.any_cons, List.any_nil, hits,
     pyMatch_dollar_eq _ _ hlast, pat_void, pat_int, pat_q, pat_float, pat_com, pat_lpt, pat_underscores n hnl, Bool.or_false,
     String.reduceToList]
   ac_rfl
-
-/-- The generated `check_name`, on every string: it returns exactly when the model accepts the name, and raises
-    `InvalidNameError` - nothing else - when it does not. -/
-theorem check_name_list (s : List Char) :
-    Gen.Names.check_name s = if verdict s then .ok () else .error E := by
-  cases s with
-  | nil => rfl
-  | cons c rest =>
-    simp only [Gen.Names.check_name, List.isEmpty_cons, Bool.false_eq_true, if_false, Py.strIndex, Py.index,
-      List.getElem?_cons_zero, pure_eq_ok, ok_bind, charIn_first]
-    by_cases hf : validFirst c = true
-    · simp only [hf, Bool.not_true, Bool.false_eq_true, if_false]
-      rw [forEach_check (c :: rest) (fun ch => !validCont ch) E]
-      · by_cases hall : (c :: rest).all validCont = true
-        · have hany : (c :: rest).any (fun ch => !validCont ch) = false := by
-            rw [List.any_eq_false]; intro x hx; simpa using List.all_eq_true.mp hall x hx
-          have hasc : (c :: rest).all Py.isAscii = true :=
-            List.all_eq_true.mpr fun x hx => isAscii_of_validCont (List.all_eq_true.mp hall x hx)
-          rw [hany]
-          simp only [Bool.false_eq_true, if_false, ok_bind, Py.strLower, hasc, if_true, pure_eq_ok, lowerChar_eq]
-          have hclean : ∀ x ∈ lower (c :: rest), validCont x = true := by
-            intro x hx
-            obtain ⟨y, hy, rfl⟩ := List.mem_map.mp hx
-            exact validCont_lowerChar (List.all_eq_true.mp hall y hy)
-          have hasc' : (lower (c :: rest)).all Py.isAscii = true :=
-            List.all_eq_true.mpr fun x hx => isAscii_of_validCont (hclean x hx)
-          change (Py.forEach Gen.Names.DISALLOWED_NAME_PATTERNS () _ >>= fun _ => Except.ok ()) = _
-          rw [forEach_check Gen.Names.DISALLOWED_NAME_PATTERNS (hits (lower (c :: rest))) E]
-          · rw [table_any _ hclean]
-            simp only [verdict, hf, hall, Bool.true_and]
-            generalize (reservedWords.any fun w => w.toList == lower (c :: rest)) = A
-            generalize matchesPattern (lower (c :: rest)) = B
-            cases A <;> cases B <;> rfl
-          · intro p
-            cases p with
-            | str w =>
-              simp only [Pat.isStr, if_true, Pat.eqStr, hits]
-              by_cases h : (w == List.map Rules.lowerChar (c :: rest)) = true <;> simp [h, E, lower]
-            | re r d =>
-              have hasc'' : (List.map Rules.lowerChar (c :: rest)).all Py.isAscii = true := hasc'
-              simp only [Pat.isStr, Bool.false_eq_true, if_false, Pat.match, hasc'', if_true, hits, pure_eq_ok, ok_bind]
-              by_cases h : r.pyMatch d (List.map Rules.lowerChar (c :: rest)) = true <;> simp [h, E, lower]
-        · have hany : (c :: rest).any (fun ch => !validCont ch) = true := by
-            rw [List.any_eq_true]
-            simp only [List.all_eq_true, not_forall] at hall
-            obtain ⟨x, hx, hv⟩ := hall
-            exact ⟨x, hx, by simpa using hv⟩
-          have hall' : (c :: rest).all validCont = false := by simpa using hall
-          rw [hany]
-          simp [verdict, hall']
-      · intro ch
-        rw [charIn_cont]
-        by_cases h : validCont ch = true <;> simp [h, E]
-    · have hf' : validFirst c = false := by simpa using hf
-      simp [hf', verdict, E]
 
 /-- the same for the model's `checkName : String → Bool` -/
 theorem check_name_eq (name : String) :
